@@ -253,3 +253,50 @@ PROPS["C13"] = {
     "assumptions": ["conversion consistency (birational map is a homomorphism): not formalised, compared with libsodium"],
     "partial": "constructions are definitional in the model; equality with libsodium by search",
 }
+
+_PROT_MODELLED = ["the operating system is an ASSUMED model (OsModel in Impl/Protected.v): mprotect / mlock / munlock act on whole pages covering [start, start+len), len = 0 is a no-op, fresh allocations are read-write and unlocked, Linux refuses to lock a no-access mapping; validated against /proc/self/maps, VmLck and forked fault probes after every step",
+                  "Vec growth policy (capacity max(len, 8) first, doubling afterwards, clone = exact) is std behaviour entered as a model assumption and validated through the sizes of the release events",
+                  "the type-level state is taken to equal the recorded state (C20 covers what the type system allows)"]
+
+PROPS["C14"] = {
+    "theorems": [
+        {"name": "C14_agree", "status": "proved", "statement": "forall length, forall legal op sequence from create: every reached world has every data page of the region and of every clone at the rights / lock state of its type"},
+        {"name": "C14_step_preserves", "status": "proved", "statement": "one-step preservation of the per-page invariant (data pages follow the type, spare pages as allocated)"},
+        {"name": "C14_example", "status": "proved", "statement": "non-vacuity at length 4097 (1 mod page), by vm_compute"},
+    ],
+    "builds": ["nightly"],
+    "rule": "all operation sequences up to depth 3 (thorough 5) over the type-state graph {lock, unlock, read-only, read-write, no-access, clone, resize up / down} + drop, for HeapBytes of lengths 0, 1, 16, 32, 64, page-1, page, page+1, 2*page, 2*page+1 and HeapByteArray<N> for N in {1, 16, 64, 4095, 4096, 4097, 8193}; each in a forked child; after every step: rights of first / last data page and of the page before from /proc/self/maps, a no-access page after the allocation, VmLck, contents, forked read / write probes (SIGSEGV or not) on the last byte; after the drop VmLck = 0; "
+            "the HeapBytes sequences of depth <= 3 also run through the extracted model (correspondence of page rights, locked-page count, final state). non-trivial: all (exhaustive over that family)",
+    "modelled": _PROT_MODELLED,
+    "assumptions": ["OsModel (see modelled)", "x86-64 Linux, 4096-byte pages"],
+    "partial": "invariant proved over the assumed OS model; faults / VmLck / VMA behaviour observed, not proved",
+}
+
+PROPS["C15"] = {
+    "theorems": [
+        {"name": "C15_step_releases_wiped", "status": "proved", "statement": "every release event produced by any operation carries no non-zero byte"},
+        {"name": "C15_drop_all_wiped", "status": "proved", "statement": "dropping the region and all clones releases only wiped regions"},
+        {"name": "C15_release_wiped", "status": "proved", "statement": "deallocate wipes the whole allocation (capacity, not length)"},
+        {"name": "C15_example", "status": "proved", "statement": "non-vacuity: sizes of the release events of a grow + clone sequence, by vm_compute"},
+    ],
+    "builds": ["nightly"],
+    "rule": "all sequences up to depth 3 (thorough 5) over {fill with non-zero secret, lock, unlock, protect, clone, resize up / down} + drop for HeapBytes of lengths 1, 16, 100, page-1, page, page+1, 2*page+1, 5*page and HeapByteArray<16/4096/4097>, plus plain HeapBytes grow / shrink / drop; hook verif_set_release_observer reports every region handed to free(): size and count of non-zero bytes (read with process_vm_readv); any non-zero byte is a violation (search); release sizes and flags compared with the model (correspondence)",
+    "modelled": _PROT_MODELLED,
+    "assumptions": ["what the system allocator receives is observed through the hook placed immediately before free()"],
+    "partial": "",
+}
+
+PROPS["C19"] = {
+    "theorems": [
+        {"name": "C19_transitions_never_panic", "status": "proved", "statement": "lock / unlock / protect transitions never panic, any world, any refusal schedule"},
+        {"name": "C19_create_never_panics", "status": "proved", "statement": "from_slice_into_locked returns Ok or Err for every length and schedule"},
+        {"name": "C19_refused_lock_is_err", "status": "proved", "statement": "a refused lock of a non-empty region is Err"},
+        {"name": "C19_example", "status": "proved", "statement": "non-vacuity by vm_compute"},
+    ],
+    "builds": ["nightly"],
+    "ld_preload": True,
+    "rule": "for HeapBytes of lengths 0, 1, 64, page, page+1 and every sequence up to depth 2 (thorough 4): the unfailed run counts the mlock calls; then for each k the run in which the k-th and all later mlock calls are refused (LD_PRELOAD interposer): no abort, no panic in Result-returning constructors / transitions, earlier regions (clones) keep their page rights, VmLck = 0 and only wiped releases after cleanup; the six Result-returning constructors with the first lock refused; outcome classes compared with the model (correspondence)",
+    "modelled": _PROT_MODELLED + ["the refusal is injected by interposing on mlock (root ignores RLIMIT_MEMLOCK)"],
+    "assumptions": ["resize / clone of a locked region have no Result in their signature: a panic there is outside the property and is tolerated by the check"],
+    "partial": "",
+}
